@@ -507,8 +507,8 @@ func (s *sched) runActor(a *actor) {
 			return
 		}
 		if inflight != nil && inflight.Data != nil { // follower
-			a.shared = true
 			_, err = w.Write(inflight.Data)
+			a.shared = true // what the real caller reports through the returned info (ResolveDeduplicated)
 			a.result = a.outcome(err)
 			return
 		}
@@ -677,7 +677,7 @@ func (s *sched) options(st []string, o genOpts, cancels int) []cmd {
 			if o.plan != nil {
 				kinds = []string{o.plan[i]}
 			} else {
-				kinds = answersFor(s.mode)
+				kinds = append(answersFor(s.mode), "panic")
 			}
 			seen := map[string]bool{}
 			for _, k := range kinds {
@@ -685,7 +685,7 @@ func (s *sched) options(st []string, o genOpts, cancels int) []cmd {
 					seen[k] = true
 					opts = append(opts, cmd{"ans", i, k})
 				}
-				if a.canceled {
+				if a.canceled && k != "panic" {
 					v := ctxVariant(s.mode, k)
 					if !seen[v] {
 						seen[v] = true
